@@ -247,3 +247,37 @@ pub fn probe_fq(cx: &mut Ctx, iters: usize) {
         }
     }
 }
+
+/// Replay of a Kani counterexample for a fiat routine on the REAL crate (minimal build): `fiat:<f>:<op>:<hexA>:<hexB>`.
+/// A and B are the Montgomery-domain limb integers Kani chose; the public operator is applied to the elements with exactly
+/// those internal limbs, and the result is compared with integer arithmetic on the Montgomery values.
+pub fn fiat_replay(cx: &mut Ctx, spec: &str) {
+    let parts: Vec<&str> = spec.split(':').collect();
+    if parts.len() < 5 { println!("NOPROBE {}", spec); std::process::exit(0); }
+    let (fld, op) = (parts[1], parts[2]);
+    let a = N::parse_bytes(parts[3].as_bytes(), 16).unwrap();
+    let b = N::parse_bytes(parts[4].as_bytes(), 16).unwrap();
+    macro_rules! go { ($T:ty, $p:expr, $nl:expr, $nb:expr) => {{
+        let p: N = $p;
+        let f = F::new(p.clone());
+        let rinv = f.inv(&((n(1) << (8 * $nb)) % &p));
+        // the element whose internal Montgomery limbs are A is the one with value A * R^-1 (limbs are canonical, A < p)
+        let mk = |v: &N| -> $T { let x = f.mul(v, &rinv); let mut b = [0u8; $nb]; let t = x.to_bytes_le(); b[..t.len()].copy_from_slice(&t); <$T>::from_le_bytes_mod_order(&b) };
+        let xa = mk(&a);
+        let xb = mk(&b);
+        let val = |x: &$T| -> N { N::from_bytes_le(&x.to_bytes()) };
+        let d = || format!("{} Montgomery limbs A = 0x{:x}, B = 0x{:x} (values {} and {})", fld, a, b, f.mul(&a, &rinv), f.mul(&b, &rinv));
+        match op {
+            "add" => cx.eq("a + b (fiat add on these limbs)", &d, val(&(xa + xb)), f.mul(&f.add(&a, &b), &rinv)),
+            "sub" => cx.eq("a - b (fiat sub on these limbs)", &d, val(&(xa - xb)), f.mul(&f.sub(&a, &b), &rinv)),
+            "opp" => cx.eq("-a (fiat opp on these limbs)", &d, val(&(-xa)), f.mul(&f.neg(&a), &rinv)),
+            _ => { println!("NOPROBE {}", spec); std::process::exit(0); }
+        }
+    }}}
+    match fld {
+        "fq" => go!(Fq, q(), 4, 32),
+        "fr" => go!(Fr, r(), 4, 32),
+        "fp" => go!(Fp, pbls(), 6, 48),
+        _ => { println!("NOPROBE {}", spec); std::process::exit(0); }
+    }
+}
